@@ -1,7 +1,7 @@
 (* C17 -- property theorems only.  Each is closed by `exact` of a lemma from
    proofs/ and followed by Print Assumptions. *)
 From Coq Require Import ZArith String List.
-From Dagrt Require Import GenC17 Match MatchACProofs MatchProofs.
+From Dagrt Require Import GenC17 Match MatchACProofs MatchProofs MatchFlattenProofs.
 
 (* Full statement of the property for the code as it is now: the identity elements
    handed to map_modulo_identity come from the source (GenC17.v). *)
@@ -54,6 +54,22 @@ Theorem C17_no_match_error : forall swap free_opt bound pre tpl tgt k,
                 mem x (free_names free_opt bound tpl) = false).
 Proof. exact (fun swap => match_error swap _). Qed.
 Print Assumptions C17_no_match_error.
+
+(* The same for the template and target as given (before pymbolic's flatten), for every
+   interpretation of quotient and power satisfying the three laws flatten relies on. *)
+Theorem C17_genuine : forall (Q P : Z -> Z -> Z),
+  (forall b, Q 0%Z b = 0%Z) -> (forall a, Q a 1%Z = a) -> (forall a, P a 1%Z = a) ->
+  forall swap free_opt bound pre tpl tgt sigma amb,
+  call_fn_is_symbol tpl = true -> call_fn_is_symbol tgt = true ->
+  NoDup (map fst (pre_list pre)) ->
+  match_model swap (idel_of c17_sum_id c17_prod_id) free_opt bound pre tpl tgt = MOk sigma amb ->
+  forall rho F, eval rho F Q P (subst (sigma_of sigma) tpl) = eval rho F Q P tgt.
+Proof.
+  exact (fun Q P H0 H1 H2 swap free_opt bound pre tpl tgt sigma amb =>
+           match_genuine_unflattened Q P H0 H1 H2 swap _ free_opt bound pre tpl tgt sigma amb
+             (fun op => match op with OSum => eq_refl | OProd => eq_refl end)).
+Qed.
+Print Assumptions C17_genuine.
 
 Theorem C17_full : C17_full_statement.
 Proof. exact (match_full _ (fun op => match op with OSum => eq_refl | OProd => eq_refl end)). Qed.
